@@ -14,9 +14,9 @@ let z_of_int (i : int) : z =
 let int_of_z (x : z) : int = match x with Z0 -> 0 | Zpos p -> int_of_pos p | Zneg p -> - (int_of_pos p)
 
 (* decimal string <-> Z for values beyond OCaml int *)
-let z_of_string (s : string) : z =
-  let neg = String.length s > 0 && s.[0] = '-' in
-  let digits = if neg then String.sub s 1 (String.length s - 1) else s in
+let z_of_string (s : Stdlib.String.t) : z =
+  let neg = Stdlib.String.length s > 0 && s.[0] = '-' in
+  let digits = if neg then Stdlib.String.sub s 1 (Stdlib.String.length s - 1) else s in
   (* build positive by repeated *10 + d on an arbitrary-precision bit list *)
   let bits = ref [] in (* little endian bool list *)
   let mul10_add d =
@@ -27,8 +27,8 @@ let z_of_string (s : string) : z =
       | [] -> if carry = 0 then [] else (carry land 1) :: go [] (carry lsr 1)
       | x :: r -> let v = x * 10 + carry in (v land 1) :: go r (v lsr 1) in
     let r = go l d in
-    bits := List.map (fun x -> x = 1) r in
-  String.iter (fun c -> mul10_add (Char.code c - 48)) digits;
+    bits := Stdlib.List.map (fun x -> x = 1) r in
+  Stdlib.String.iter (fun c -> mul10_add (Stdlib.Char.code c - 48)) digits;
   let rec strip l = match l with [] -> [] | false :: r -> (match strip r with [] -> [] | r' -> false :: r') | true :: r -> true :: strip r in
   let l = strip !bits in
   let rec pos_of_bits l = match l with
@@ -37,7 +37,7 @@ let z_of_string (s : string) : z =
     | false :: r -> XO (pos_of_bits r) in
   match l with [] -> Z0 | _ -> if neg then Zneg (pos_of_bits l) else Zpos (pos_of_bits l)
 
-let string_of_z (x : z) : string =
+let string_of_z (x : z) : Stdlib.String.t =
   (* convert via repeated division by 10 on bit list: simple, sizes are small *)
   let rec bits_of_pos p = match p with XH -> [true] | XO q -> false :: bits_of_pos q | XI q -> true :: bits_of_pos q in
   let to_dec bits =
@@ -48,8 +48,8 @@ let string_of_z (x : z) : string =
         | [] -> if carry = 0 then [] else [carry]
         | d :: r -> let v = d * 2 + carry in (v mod 10) :: go r (v / 10) in
       digits := go !digits (if b then 1 else 0) in
-    List.iter double_add (List.rev bits);
-    String.concat "" (List.rev_map string_of_int !digits) in
+    Stdlib.List.iter double_add (Stdlib.List.rev bits);
+    Stdlib.String.concat "" (Stdlib.List.rev_map string_of_int !digits) in
   match x with
   | Z0 -> "0"
   | Zpos p -> to_dec (bits_of_pos p)
@@ -57,23 +57,23 @@ let string_of_z (x : z) : string =
 
 let hexval c =
   match c with
-  | '0'..'9' -> Char.code c - 48
-  | 'a'..'f' -> Char.code c - 87
-  | 'A'..'F' -> Char.code c - 55
+  | '0'..'9' -> Stdlib.Char.code c - 48
+  | 'a'..'f' -> Stdlib.Char.code c - 87
+  | 'A'..'F' -> Stdlib.Char.code c - 55
   | _ -> failwith "bad hex"
 
 (* "-" is the empty string *)
-let bytes_of_hex (s : string) : n list =
+let bytes_of_hex (s : Stdlib.String.t) : n list =
   if s = "-" then [] else begin
-    let len = String.length s / 2 in
+    let len = Stdlib.String.length s / 2 in
     let rec go i acc = if i < 0 then acc else
       go (i - 1) (n_of_int (hexval s.[2*i] * 16 + hexval s.[2*i+1]) :: acc) in
     go (len - 1) []
   end
 
-let hex_of_bytes (b : n list) : string =
+let hex_of_bytes (b : n list) : Stdlib.String.t =
   match b with
   | [] -> "-"
-  | _ -> String.concat "" (List.map (fun x -> Printf.sprintf "%02x" (int_of_n x)) b)
+  | _ -> Stdlib.String.concat "" (Stdlib.List.map (fun x -> Printf.sprintf "%02x" (int_of_n x)) b)
 
 let bool_str b = if b then "1" else "0"
